@@ -38,8 +38,9 @@ def extra_shape_axioms(ctx):
     ]
 
 
-def aligned_family(ex, polys, base="al", shape=None, same_shape=True):
-    """Fresh results of an alignment: shared N, D, rows, names (and shape)."""
+def aligned_family(ex, polys, base="al", shape=None, same_shape=True, names_contain=None):
+    """Fresh results of an alignment: shared N, D, rows, names (and shape).  names_contain: None (nothing said about the names),
+    True (the common names contain every operand's names: proved for align_exponents) or a formula under which they do."""
     ctx = ex.ctx
     N, D = ctx.int(f"N_{base}"), ctx.int(f"D_{base}")
     rf = ctx.func(f"row_{base}", I, Mono)
@@ -56,6 +57,12 @@ def aligned_family(ex, polys, base="al", shape=None, same_shape=True):
     ctx.assume(out[0].wf(ctx))
     from contracts.construct import keyok
     ctx.assume(ctx.forall_range(0, N, lambda t: keyok(rf(t), D)))
+    if names_contain is not None:
+        from engine.polymodel import nin, nat
+        for p in polys:
+            if hasattr(p, "names"):
+                f = ctx.forall_range(0, p.D, lambda d, p=p: nin(names, nat(p.names, d)), pat=lambda d, p=p: nat(p.names, d))
+                ctx.assume(f if names_contain is True else z3.Implies(names_contain, f))
     # each result denotes its input (broadcast to the common shape where shape is aligned)
     for p, q in zip(polys, out):
         if hasattr(p, "val"):
@@ -120,6 +127,8 @@ class AlignShape(Contract):
                     ex.oblige(f"post.common_shape[{j}]", r.shape == common, "post")
                     ex.oblige(f"post.dtype_kept[{j}]", r.dtype == p.dtype, "post",
                               note="broadcasting must not promote the coefficient dtype")
+                    ex.oblige(f"post.unchanged_when_already_of_the_common_shape[{j}]", z3.BoolVal(True) if r is p else z3.Not(p.shape == common), "post",
+                              note="an operand that has the common shape comes back as the very same object (names and terms untouched)")
                     if r is p:
                         continue                 # returned unchanged: only legal when the shape already is the common one
                     fa = getattr(r, "from_attrs", None)
@@ -157,6 +166,8 @@ class AlignShape(Contract):
             ctx.assume(q.wf(ctx))
             ctx.assume(ctx.forall_range(0, q.N, lambda t, q=q: keyok(q.row(t), q.D)))
             ctx.assume(ctx.forall_idx(lambda i, p=p, q=q: q.val(i) == p.val(proj(i, shape, p.shape)), shape))
+            # an operand of the common shape comes back as it is (post.unchanged_when_already_of_the_common_shape)
+            ctx.assume(z3.Implies(p.shape == shape, z3.And(q.names == p.names, q.D == p.D)))
             out.append(q)
         return tuple(out)
 
@@ -296,6 +307,10 @@ class AlignExponents(Contract):
             ex.oblige(f"post.same_rows_as_first[{j}]", z3.And(r.N == r0.N, r.D == r0.D, ctx.forall_range(
                 0, r0.N, lambda t: r.row(t) == r0.row(t))), "post")
             ex.oblige(f"post.same_names_as_first[{j}]", r.names == r0.names, "post")
+        from engine.polymodel import nin, nat
+        for j, x in enumerate(ex.inputs):
+            ex.oblige(f"post.names_contain_the_names_of_argument[{j}]", ctx.forall_range(0, x.D, lambda d, x=x: nin(r0.names, nat(x.names, d))), "post",
+                      note="no indeterminate of an operand is missing from the common names")
         # coefficient level: every term of operand j sits at its row with its coefficient; other rows are zero
         work = getattr(ex, "aligned_inputs", None) or ex.inputs
         for j, (r, p) in enumerate(zip(res, work)):
@@ -339,7 +354,7 @@ class AlignExponents(Contract):
                 else:
                     raise U("align_exponents of operands that are neither ndpoly nor numeric arrays", node)
             polys = conv
-        res = aligned_family(ex, polys, base=ex.ctx.fresh("ae"), same_shape=False)
+        res = aligned_family(ex, polys, base=ex.ctx.fresh("ae"), same_shape=False, names_contain=True)
         hook = getattr(ex, "hooks", {}).get("after_align")
         if hook:
             hook(ex, res)
@@ -387,6 +402,11 @@ class AlignPolynomials(Contract):
                     ex.oblige(f"post.denotes_broadcast_argument[{j}]", ctx.forall_idx(
                         lambda i, r=r, x=x: r.val(i) == x.val(proj(i, common, x.shape)), common), "post")
                     ex.oblige(f"post.dtype_kept[{j}]", r.dtype == x.dtype, "post")
+                    from engine.polymodel import nin, nat
+                    same = z3.And(*[y.shape == common for y in ex.inputs])
+                    ex.oblige(f"post.names_contain_the_names_of_argument_when_no_shape_is_changed[{j}]", z3.Implies(same, ctx.forall_range(
+                        0, x.D, lambda d, x=x: nin(r0.names, nat(x.names, d)))), "post",
+                        note="(an operand that has to be broadcast is rebuilt under the retain_names option and may lose names it does not use)")
             yield Case(f"arity={k}", make_env, check)
 
     def apply(self, ex, args, kw, node):
@@ -398,7 +418,7 @@ class AlignPolynomials(Contract):
         for p in polys[1:]:
             ex.oblige(f"pre({site}).shapes_broadcast", bok(shape, p.shape), "precondition", node)
             shape = bshape(shape, p.shape)
-        res = aligned_family(ex, polys, base=ex.ctx.fresh("al"), shape=shape)
+        res = aligned_family(ex, polys, base=ex.ctx.fresh("al"), shape=shape, names_contain=z3.And(*[p.shape == shape for p in polys]))
         hook = getattr(ex, "hooks", {}).get("after_align")
         if hook:
             hook(ex, res)
